@@ -39,6 +39,8 @@ N32 == [w \in Writers |-> IF w = "w1" THEN 3 ELSE 2]
 N23 == [w \in Writers |-> IF w = "w1" THEN 2 ELSE 3]
 N22 == [w \in Writers |-> 2]
 N10 == [w \in Writers |-> IF w = "w1" THEN 1 ELSE 0]
+N11 == [w \in Writers |-> 1]
+N12 == [w \in Writers |-> IF w = "w1" THEN 1 ELSE 2]
 N64 == [w \in Writers |-> IF w = "w1" THEN 6 ELSE 4]
 RGet == [r \in Readers |-> "get"]
 RGat == [r \in Readers |-> "gat"]
